@@ -102,7 +102,7 @@ Inductive gclass :=
 | Constant.   (* initialised when the image is loaded, never written afterwards *)
 
 Definition modelled_G : list (string * gclass) := [
-  ("(anonymous namespace)::helpermethod_callextension_loadlibrary(sqf::runtime::runtime&, std::__cxx11::basic_string<char, std::char_traits<char>, std::allocator<char> >)::buffer", Scratch);
+  ("(anonymous namespace)::helpermethod_callextension_loadlibrary()::buffer", Scratch);
   ("sqf::runtime::localNamespace", Constant);
   ("sqf::runtime::missionNamespace", Constant);
   ("sqf::runtime::parsingNamespace", Constant);
